@@ -1,7 +1,7 @@
 #!/usr/bin/env python3
 """Confirm seeded changes and file them under /verif/seeded/<id>/.
 
-usage: tools/confirm_seeds.py <srcdir> [<srcdir>..] [--jobs N] [--no-suite]
+usage: tools/confirm_seeds.py <srcdir> [<srcdir>..] [--jobs N] [--no-suite] [--tag w2]   (ids become <PID>-w2-<k>)
 Each <srcdir> is a deliver/ directory written by a seeding agent (change<k>.diff, demo<k>.cpp, note<k>.txt) and must be
 named .../<PID>/deliver.  For every change:
   1. a scratch git worktree of /repo at HEAD is created under /tmp (outside /repo and /verif) and removed afterwards;
@@ -44,7 +44,7 @@ def demo_run(src, inc, note, exe):
 
 def one(job):
     pid, k, srcdir, wt, do_suite = job
-    tag = "%s-%s" % (pid, k)
+    tag = "%s-%s%s" % (pid, (TAG + "-") if TAG else "", k)
     res = {"id": tag, "property": pid, "source": "seeding sub-agent (given only the property text and a scratch worktree)"}
     diff = os.path.join(srcdir, "change%s.diff" % k)
     demo = os.path.join(srcdir, "demo%s.cpp" % k)
@@ -92,7 +92,15 @@ def one(job):
     return res
 
 
+TAG = ""
+
+
 def main():
+    global TAG
+    if "--tag" in sys.argv:
+        TAG = sys.argv[sys.argv.index("--tag") + 1]
+        sys.argv.remove("--tag")
+        sys.argv.remove(TAG)
     args = [a for a in sys.argv[1:] if not a.startswith("--")]
     jobs_n = int(sys.argv[sys.argv.index("--jobs") + 1]) if "--jobs" in sys.argv else 4
     if "--jobs" in sys.argv:
